@@ -280,14 +280,14 @@ def frame_from_record(rec):
     return df
 
 
-def check_closed(chk, drv, df, ytype, p, weights, missing, expo, miss_den, seedinfo, snm=None):
+def check_closed(chk, drv, df, ytype, p, weights, missing, expo, miss_den, seedinfo, snm=None, history='auto'):
     snm = snm or SNMS[p]
     cell = (ytype, p, bool(weights), missing)
     case = {'kind': 'closed', 'ytype': ytype, 'snm': snm, 'weights': bool(weights), 'missing': missing,
             'exposure_model': expo, 'missing_model': miss_den, 'n': len(df), 'data': frame_record(df),
             'seedinfo': seedinfo}
     try:
-        g = run_impl(df, expo, p, weights, missing, miss_den, snm=snm)
+        g = run_impl(df, expo, p, weights, missing, miss_den, snm=snm, history=history)
         psi = np.asarray(g.psi, dtype=float)
         labels = [str(x) for x in g.psi_labels]
         case['history'] = g._verif_history
@@ -381,7 +381,7 @@ def check_closed(chk, drv, df, ytype, p, weights, missing, expo, miss_den, seedi
     return {'g': g, 'psi': psi, 'labels': labels, 'snm': snm, 'ref': ref, 'Vm': Vm, 'case': case}
 
 
-def check_search(chk, df, ytype, p, weights, missing, expo, miss_den, closed, start_mode):
+def check_search(chk, df, ytype, p, weights, missing, expo, miss_den, closed, start_mode, history='auto'):
     """closed vs search (numerical; Nelder-Mead)"""
     psi_c = closed['psi']
     if start_mode == 'zero':
@@ -392,7 +392,7 @@ def check_search(chk, df, ytype, p, weights, missing, expo, miss_den, closed, st
     case = dict(closed['case'])
     case.update({'kind': 'search', 'start': start})
     try:
-        g = run_impl(df, expo, p, weights, missing, miss_den, solver='search', snm=closed['snm'],
+        g = run_impl(df, expo, p, weights, missing, miss_den, solver='search', snm=closed['snm'], history=history,
                      starting_value=start, maxiter=600)
         res = g._scipy_solver_obj
         psi_s = np.asarray(g.psi, dtype=float)
@@ -450,8 +450,12 @@ def check_saturated(chk, drv, rng, ytype, weights, missing, seedinfo):
     else:
         chk.discard('could not draw a data set with both arms in every stratum')
         return
+    eval_saturated(chk, drv, df, ytype, weights, missing, expo, strata_cols, degenerate, seedinfo)
+
+
+def eval_saturated(chk, drv, df, ytype, weights, missing, expo, strata_cols, degenerate, seedinfo, history='auto'):
     miss_den = 'A + V'
-    res = check_closed(chk, drv, df, ytype, 1, weights, missing, expo, miss_den, seedinfo)
+    res = check_closed(chk, drv, df, ytype, 1, weights, missing, expo, miss_den, seedinfo, history=history)
     if res is None:
         return
     cc, w, psi = res['ref']['cc'], res['ref']['w'], res['psi']
@@ -481,6 +485,7 @@ def check_saturated(chk, drv, rng, ytype, weights, missing, seedinfo):
     want = float(num / den)
     case['stratified_closed_form'] = want
     case['degenerate_stratum'] = degenerate
+    case['strata_cols'] = strata_cols
     chk.count('saturated:%s/%s/%s' % ('w' if weights else 'nw', missing, degenerate or 'both-arms'))
     # 1e-7: the closed form does not pass through the fitted values (admits IRLS convergence error of the GLM)
     chk.d(close(psi[0], want, rtol=1e-7, atol=1e-9),
@@ -502,6 +507,10 @@ def check_singular(chk, drv, rng):
     """V identically 0: the A:V column is 0, lhm is singular, np.linalg.solve raises; the model returns none"""
     df = gen_data(rng, 'continuous', 'none')
     df['V'] = 0.0
+    eval_singular(chk, drv, df)
+
+
+def eval_singular(chk, drv, df):
     case = {'kind': 'singular', 'data': frame_record(df)}
     chk.case(case, ('singular', hash(df.to_csv())))
     try:
@@ -602,42 +611,64 @@ def run(chk, drv, rng, tier):
 
 
 def replay(rec):
-    """re-run the stored failing cases on the real code and print the estimating-equation residuals"""
+    """re-execute every stored failing case: the stored frame and configuration (SNM as written, models, weights,
+    missing-outcome handling, object history, start values) go through the same check functions again on the
+    implementation under test.  Exit 1 iff a predicate of gate D fails again (known findings do not count)."""
+    import json
     import common
-    rc = 0
+    run_impl.rng = None
+    seen, rc = set(), 0
     for f in rec.get('failures', []):
         case = f['case'].get('case', f['case']) if isinstance(f['case'], dict) else None
         if not case or 'data' not in case:
-            print('no data stored for', f.get('what'))
+            print('no data stored for', f.get('what'), case if case else '')
             continue
+        key = (case.get('kind'), json.dumps(case['data'], sort_keys=True), case.get('snm'), str(case.get('history')),
+               str(case.get('start')))
+        if key in seen:
+            continue
+        seen.add(key)
         df = frame_from_record(case['data'])
-        if case.get('kind') == 'singular':
-            print('singular case; impl =', case.get('impl'))
-            continue
-        p = len(case['snm'].split(' + '))
         chk = common.Check('C15', 'replay', 0)
+        kind = case.get('kind')
         with common.quiet():
-            g = run_impl(df, case['exposure_model'], p, case['weights'], case['missing'], case['missing_model'],
-                         snm=case['snm'], history=case.get('history'))
-            ref = reference(chk, df, case['exposure_model'], case['weights'], case['missing'], case['missing_model'],
-                            ipmw_in_use=g.ipmw)
-        cc = ref['cc']
-        E, S = exact_esteq(cc['A'].values, cc['Y'].values, ref['pi'], ref['w'],
-                           design(cc, [str(x) for x in g.psi_labels]), g.psi)
-        rel = [abs(float(e)) / max(float(s), 1e-300) for e, s in zip(E, S)]
-        print('what:', f['what'])
-        print('  history:', case.get('history'), ' fresh psi:', case.get('fresh_psi'))
-        print('  cell:', case['ytype'], case['snm'], 'weights=%s' % case['weights'], 'missing=%s' % case['missing'],
-              'exposure_model=%r' % case['exposure_model'], 'n=%d' % len(df))
-        print('  psi (closed):', list(map(float, g.psi)), ' relative residual of the estimating equations:', rel)
-        if case.get('kind') == 'search':
-            with common.quiet():
-                gs = run_impl(df, case['exposure_model'], p, case['weights'], case['missing'], case['missing_model'],
-                              solver='search', snm=case['snm'], history=case.get('history'),
-                              starting_value=case.get('start'), maxiter=600)
-            print('  psi (search):', list(map(float, gs.psi)), 'objective', float(gs._scipy_solver_obj.fun))
-        if 'stratified_closed_form' in case:
-            print('  stratified closed form:', case['stratified_closed_form'])
-        if max(rel) > 1e-8:
+            try:
+                if kind == 'singular':
+                    eval_singular(chk, None, df)
+                else:
+                    p = len(case['snm'].split(' + '))
+                    cfg = (case['ytype'], p, case['weights'], case['missing'], case['exposure_model'],
+                           case['missing_model'])
+                    if kind == 'saturated':
+                        eval_saturated(chk, None, df, case['ytype'], case['weights'], case['missing'],
+                                       case['exposure_model'], case['strata_cols'], case.get('degenerate_stratum'),
+                                       {'replay': True}, history=case.get('history'))
+                    elif kind == 'search':
+                        res = check_closed(chk, None, df, *cfg, {'replay': True}, snm=case['snm'], history=None)
+                        if res is not None:
+                            check_search(chk, df, *cfg, res, 'zero' if case.get('start') is None else 'near',
+                                         history=case.get('history'))
+                    else:
+                        check_closed(chk, None, df, *cfg, {'replay': True}, snm=case['snm'],
+                                     history=case.get('history'))
+                err = None
+            except Exception as e:       # noqa: BLE001
+                err = repr(e)
+        print('%s case: %s %s weights=%s missing=%s exposure_model=%r history=%s n=%d'
+              % (kind, case.get('ytype'), case.get('snm'), case.get('weights'), case.get('missing'),
+                 case.get('exposure_model'), case.get('history'), len(df)))
+        if err:
+            print('   raised:', err)
+            rc = 1
+        print('   predicates evaluated: %d, failing: %d, known findings: %s, discards: %s'
+              % (chk.d_cases, len(chk.d_fail), sorted(chk.known_hits), chk.discards))
+        for g in chk.d_fail[:6]:
+            gc = g['case'] if isinstance(g['case'], dict) else {}
+            print('   FAIL', g['what'])
+            for k in ('impl_psi', 'psi_labels', 'esteq_rel_residual', 'fresh_psi', 'search_psi', 'search_fun',
+                      'stratified_closed_form', 'impl_error'):
+                if k in gc:
+                    print('        %s: %s' % (k, gc[k]))
+        if chk.d_fail:
             rc = 1
     return rc
